@@ -910,7 +910,9 @@ impl IndexManager {
 
     /// Get statistics about loaded indices
     pub fn stats(&self) -> IndexStats {
-        let total_entries: usize = self.indices.values().map(|idx| idx.entries.len()).sum();
+        // Count what lookups see: pending updates add keys and tombstones
+        // remove them, so the sorted sections alone are not the entry count.
+        let total_entries = self.entry_count();
 
         IndexStats {
             index_count: self.indices.len(),
